@@ -807,7 +807,7 @@ func (p *parser) doWrite(tid int, c *cur, positional bool, ret retInfo, line int
 			p.unsupported(line, "", "marker: "+bad)
 			return nil
 		}
-		p.emit(Event{Line: line, Kind: Marker, Data: data, Offset: -1})
+		p.emit(Event{Line: line, Kind: Marker, Data: data})
 		return nil
 	}
 	name, st, status := p.resolveFD(tid, fd, base, pre)
@@ -886,9 +886,9 @@ func (p *parser) doSync(tid int, c *cur, line int, pre *pendingCall) error {
 		return err
 	}
 	if cls == pcRootDir {
-		p.emit(Event{Line: line, Kind: DirSync, Offset: -1})
+		p.emit(Event{Line: line, Kind: DirSync})
 	} else {
-		p.emit(Event{Line: line, Kind: Fsync, Path: name, Offset: -1})
+		p.emit(Event{Line: line, Kind: Fsync, Path: name})
 	}
 	return nil
 }
@@ -905,7 +905,7 @@ func (p *parser) doFtruncate(tid int, c *cur, line int, pre *pendingCall) error 
 	if !iok {
 		return fmt.Errorf("bad length")
 	}
-	p.emit(Event{Line: line, Kind: Truncate, Path: name, Size: size, Offset: -1})
+	p.emit(Event{Line: line, Kind: Truncate, Path: name, Size: size})
 	return nil
 }
 
@@ -924,7 +924,7 @@ func (p *parser) doTruncate(c *cur, line int) error {
 	if !ok {
 		return fmt.Errorf("bad length")
 	}
-	p.emit(Event{Line: line, Kind: Truncate, Path: base, Size: size, Offset: -1})
+	p.emit(Event{Line: line, Kind: Truncate, Path: base, Size: size})
 	return nil
 }
 
@@ -977,7 +977,7 @@ func (p *parser) doRename(c *cur, hasDirfd, hasFlags bool, line int) error {
 				}
 			}
 		}
-		p.emit(Event{Line: line, Kind: Rename, Path: bo, NewPath: bn, Offset: -1})
+		p.emit(Event{Line: line, Kind: Rename, Path: bo, NewPath: bn})
 	case co == pcRootFile:
 		p.nameGone(bo)
 		p.unsupported(line, bo, "rename of a root file to a place outside the modelled files")
@@ -1008,7 +1008,7 @@ func (p *parser) doUnlink(c *cur, hasDirfd bool, line int) error {
 		}
 	}
 	p.nameGone(base)
-	p.emit(Event{Line: line, Kind: Unlink, Path: base, Offset: -1})
+	p.emit(Event{Line: line, Kind: Unlink, Path: base})
 	return nil
 }
 
